@@ -85,6 +85,24 @@ def replay_file(path, verbose=False):
   return p.returncode
 
 
+def _replay_in_child(pool_ctx, path):
+  """Fallback: replay from a short-lived forked child so that the driver itself never holds a subprocess pipe."""
+  q = pool_ctx.SimpleQueue()
+
+  def run():
+    try:
+      q.put(replay_file(path))
+    except BaseException:  # pylint: disable=broad-except
+      q.put(1)
+  p = pool_ctx.Process(target=run)
+  p.start()
+  p.join(700)
+  if p.is_alive():
+    p.kill()
+    return 1
+  return q.get() if not q.empty() else 1
+
+
 # ----------------------------------------------------------------------------- known findings
 
 def load_known(pid):
@@ -253,7 +271,7 @@ def run_property(pid, tier, only=None, jobs=None, write_evidence=True, cube_filt
   def submit_cube(ob, cube, skip_twin=False, generation=0):
     task = dict(module=ob.fn.__module__, fn=ob.fn.__name__, tag=cube.tag, pre=list(cube.pre),
                 timeout=ob.timeout, path_timeout=ob.path_timeout, twin_timeout=min(20, ob.timeout),
-                scratch=scratch, skip_twin=skip_twin, fix=dict(cube.fix or {}))
+                scratch=scratch, skip_twin=skip_twin, fix=dict(cube.fix or {}), pid=pid)
     pending.append((ob, cube, generation, pool.apply_async(worker.run_cube, (task,))))
 
   # longest-first: cubes of obligations with the largest timeout go first
@@ -326,8 +344,11 @@ def run_property(pid, tier, only=None, jobs=None, write_evidence=True, cube_filt
           total['inconclusive'] += 1
           cube_rows.append(row)
           continue
-        path = write_replay(pid, ob.fn.__module__, ob.fn.__name__, cex, res.get('message', ''))
-        rc = replay_file(path)
+        if res.get('replay_path') and 'replay_rc' in res:
+          path, rc = res['replay_path'], res['replay_rc']          # replayed by the worker (see worker.run_cube)
+        else:
+          path = write_replay(pid, ob.fn.__module__, ob.fn.__name__, cex, res.get('message', ''))
+          rc = _replay_in_child(pool_ctx=ctx, path=path)
         if rc == 0:
           artefacts.append(f'{ob.name}/{cube.tag}: candidate {cex!r} does not reproduce without CrossHair')
           row['status'] = 'inconclusive(engine-artefact)'
